@@ -15,7 +15,7 @@ tvars == <<sc, l, s>>
 Ev == Rec[l]
 Req(p, cond) == (p \in Props) => cond
 
-S0 == [phase |-> "start", ins |-> [outcome |-> "none"], crashed |-> FALSE, pend |-> {}]
+S0 == [phase |-> "start", ins |-> [outcome |-> "none"], crashed |-> FALSE, pend |-> {}, twr |-> {}]
 R128 == <<0, 0, 0, 8, 0, 0, 0, 0>>          \* 0x0800_0000: the +/-128 MiB search window
 TraceInit == sc \in 1..NScen /\ l = First(sc) /\ s = S0
 Step(name) == l <= Last(sc) /\ Ev.ev = name /\ l' = l + 1 /\ sc' = sc
@@ -130,9 +130,13 @@ Munmap ==
 \* writes: the named function's slot and owned trampolines only (C03); watched neighbours never
 Write ==
   /\ Step("Write")
+  \* Injectorpp!WriteEntry: the entry is written only after the trampoline it will lead to is complete (another thread may
+  \* call the function at any moment: C01 "from any call site or thread")
+  /\ Req("C01", Ev.region = "entry" => s.pend \subseteq s.twr)
+  /\ Req("C14", Ev.region = "entry" => s.pend \subseteq s.twr)
   /\ Req("C03", Ev.region \in {"entry", "tramp"})
   /\ Req("C03", Ev.region = "entry" => \A i \in 1..Len(Ev.changed) : Ev.changed[i] <= 16)
-  /\ s' = s
+  /\ s' = IF Ev.region = "tramp" THEN [s EXCEPT !.twr = @ \cup {Ev.name}] ELSE s
 
 Other == l <= Last(sc) /\ Ev.ev \in {"Note", "Mprotect", "Flush", "Target"}
          /\ l' = l + 1 /\ sc' = sc /\ s' = s
